@@ -36,13 +36,15 @@ Definition lbl_if (n : nat) : list code := if used n then [KLbl n] else [].
 
 Definition res := (list code * nat * bool)%type.      (* code, next free label, "a label was printed last" *)
 
-(** sequence: only the first element inherits the skip-check flags; the result flag is the last element's *)
+(** sequence: only the first element inherits the skip-check flags; the result flag is that of the last
+    element that printed anything *)
 Fixpoint seq_emit (emit : expr -> nat -> bool -> bool -> nat -> res) (es : list expr) (ko : nat) (pd mk : bool) (l : nat) (ll : bool) : res :=
   match es with
   | [] => ([], l, ll)
   | x :: es' =>
       let '(c, l1, ll1) := emit x ko pd mk l in
-      let '(c', l2, ll2) := seq_emit emit es' ko false false l1 ll1 in
+      (* an element that prints nothing leaves a preceding label last (tree/peg.go, fix f5d6c40) *)
+      let '(c', l2, ll2) := seq_emit emit es' ko false false l1 (match c with [] => ll | _ => ll1 end) in
       (c ++ c', l2, ll2)
   end.
 
@@ -148,11 +150,16 @@ Variable asu : nat -> bool.
 Variable undef : nat -> bool.          (* slot created for a name that has no definition *)
 
 Definition fuel : nat := S (gsize g) * S (length g).
-Definition reached (r : nat) : bool := nth r (fst (count_rules g)) false.
-Definition once (r : nat) : bool := inline && (nth r (snd (count_rules g)) 0 =? 1).
 
 (** all rule functions, in order; [real = false] is the dry pass, which also walks the slots of
-    undefined names (they take labels there and none in the real pass) *)
+    undefined names (they take labels there and none in the real pass).  [cr] is the result of
+    count_rules (reached, counts) and [fl] the fuel, both computed once by the caller. *)
+Section Pass.
+Variable cr : list bool * list nat.
+Variable fl : nat.
+Definition reached (r : nat) : bool := nth r (fst cr) false.
+Definition once (r : nat) : bool := inline && (nth r (snd cr) 0 =? 1).
+
 Fixpoint pass (real : bool) (used : nat -> bool) (rs : list rbody) (r : nat) (l : nat) : list (option (list code)) :=
   match rs with
   | [] => []
@@ -164,9 +171,10 @@ Fixpoint pass (real : bool) (used : nat -> bool) (rs : list rbody) (r : nat) (l 
         if negb (reached r) then None :: pass real used rs' (S r) (S l)
         else if (once r && negb (ko =? 0))%bool then None :: pass real used rs' (S r) (S l)
         else
-          let '(c, l1) := rule_emit g ast once asu used fuel r ko in
+          let '(c, l1) := rule_emit g ast once asu used fl r ko in
           Some c :: pass real used rs' (S r) l1
   end.
+End Pass.
 
 Fixpoint jumps1 (x : code) : list nat :=
   match x with
@@ -177,11 +185,16 @@ Fixpoint jumps1 (x : code) : list nat :=
   end.
 Definition jumps (c : list code) : list nat := flat_map jumps1 c.
 
-Definition dry_jumps : list nat :=
-  flat_map (fun o => match o with Some c => jumps c | None => [] end) (pass false (fun _ => false) g 0 0).
-Definition used_tab (n : nat) : bool := existsb (Nat.eqb n) dry_jumps.
+Definition dry_jumps_of (cr : list bool * list nat) (fl : nat) : list nat :=
+  flat_map (fun o => match o with Some c => jumps c | None => [] end) (pass cr fl false (fun _ => false) g 0 0).
+Definition used_of (dj : list nat) (n : nat) : bool := existsb (Nat.eqb n) dj.
 
-Definition emit_all : list (option (list code)) := pass true used_tab g 0 0.
+(** (the tables are computed once) *)
+Definition emit_all : list (option (list code)) :=
+  let cr := count_rules g in
+  let fl := fuel in
+  let dj := dry_jumps_of cr fl in
+  pass cr fl true (used_of dj) g 0 0.
 
 End Passes.
 
